@@ -1,11 +1,13 @@
 import SafeNet.Base.Dec
+import SafeNet.Base.Sha256
 import SafeNet.Model.Amount
 import SafeNet.Gen.Distance
 /-!
 Model of the distance computations: `NetworkAddress::{as_bytes, to_record_key, from_record_key, distance}`,
 `convert_distance_to_u256` (ant-protocol/src/lib.rs), `sort_peers_by_key` (ant-networking/src/lib.rs),
 `get_peers_in_range` / the selection step of `get_replicate_candidates` (ant-networking/src/cmd.rs) and
-`Node::calculate_get_closest_peers` (ant-node/src/node.rs). SHA-256 is a parameter `H`.
+`Node::calculate_get_closest_peers` (ant-node/src/node.rs). SHA-256 is a parameter `H` in the general statements and
+the FIPS 180-4 definition of `Base/Sha256` in `distSha` (what the code computes: `KBucketKey::new` hashes with sha2).
 -/
 namespace SafeNet.Distance
 open SafeNet.Gen.Distance SafeNet.Dec
@@ -22,6 +24,9 @@ def fromRecordKey (k : List Nat) : Addr := { kind := .recordKey, raw := k, xorna
 
 /-- `self.as_kbucket_key().distance(&other.as_kbucket_key())`: XOR of the SHA-256 digests. -/
 def dist (H : List Nat → Nat) (a b : Addr) : Nat := H (asBytes a) ^^^ H (asBytes b)
+
+/-- the distance the code computes: `H` is SHA-256 itself (defined in `Base/Sha256`), digests read big-endian -/
+def distSha (a b : Addr) : Nat := dist SafeNet.Sha256.hashNat a b
 
 /-- `trim_start_matches(pat)`: strip the prefix repeatedly. -/
 def stripPrefixAll (pat : List Nat) : Nat → List Nat → List Nat
